@@ -63,7 +63,7 @@ void run()
 {
     gsim::check_races(gsim::param_int("races", 0) != 0);
     if (!gsim::prog_loaded()) {
-        int n = 2 + gsim::gen_int(4);
+        int n = gsim::gen_int(8) == 0 ? 1 : 2 + gsim::gen_int(4);  // a barrier of one never waits
         int G = 1 + gsim::gen_int(4);
         gsim::prog_reset(n);
         bool any_stayer = false;
